@@ -250,6 +250,14 @@ def run(ctx):
         mode, ex = loop_exit_atoms(l.test)
         stop = gp.params[-1] if gp.params else "stop_at"
         want = ("is", *sorted([stepv, stop]), True)
+        # the walk may also be left by a `break` (generator-style loops): its guard is one more reason for the walk to end
+        from sa.util import expand_names as _en3
+        implied = {(t[0], t[1], t[2], not t[3]) for t in ex}
+        for br in [y for st_ in l.body for y in ast.walk(st_) if isinstance(y, ast.Break)]:
+            for a_, pol_ in guards_at(gp, br):
+                t = canon_atom(_en3(gp, a_), pol_)
+                if t not in implied and t not in ex:
+                    ex = ex + [t]
         ok2 = want in ex and all(t == want or (t[0] == "truthy" and t[1] == stepv and t[3] is False) or t == ("is", *sorted([stepv, "None"]), True) for t in ex)
         c.ob("R10", ok2, gp, "path-stops-at-domain", f"the walk ends at the domain ('{stop}') or the root" if ok2 else
              f"the walk 'while {norm(l.test)}' does not end exactly when it reaches the domain '{stop}' (it ends when one of {ex} holds): the domain itself, or "
